@@ -347,3 +347,127 @@ except TypeError:
             continue          # Environment.from_dict reads the keys it knows; the statement does not demand refusing others
         for p in u.paths(fi, setup_bad, Cfg("real"), label=name + "[unknown key]"):
             u.oblige(p, f"builders.unknown_key_refused[{name}]", p.kind == "raise" and p.exc_name() in ("TypeError", "KeyError"), {}, rp)
+
+
+# ---- the section builders: which YAML section builds which part ------------------------------------------------------------------------
+SECTIONS_REPLAY = lambda w: {"code": """
+import pyxel
+from pyxel.configuration import configuration as C
+VIOLATED, DETAIL = False, 'every part is built from its own section'
+for build, kind in ((C.to_ccd, 'ccd'), (C.to_cmos, 'cmos'), (C.to_mkid_array, 'mkid'), (C.to_apd, 'apd')):
+    ch = {'quantum_efficiency': 0.5, 'full_well_capacity': 1234, 'adc_bit_resolution': 12}
+    if kind == 'apd':
+        ch = {'roic_gain': 0.8, 'avalanche_gain': 10.0, 'pixel_reset_voltage': 5.0, 'quantum_efficiency': 0.5, 'full_well_capacity': 1234, 'adc_bit_resolution': 12}
+    det = build({'geometry': {'row': 3, 'col': 7}, 'environment': {'temperature': 77.0}, 'characteristics': ch})
+    if (det.geometry.row, det.geometry.col, det.environment.temperature, det.characteristics.quantum_efficiency, det.characteristics.full_well_capacity, det.characteristics.adc_bit_resolution) != (3, 7, 77.0, 0.5, 1234, 12) \\
+            or type(det).__name__.lower() != kind:
+        VIOLATED, DETAIL = True, f'{kind}: built {type(det).__name__} row={det.geometry.row} col={det.geometry.col} T={det.environment.temperature}'; break
+obs = C.to_observation({'readout': {'times': [1.0, 2.0], 'non_destructive': True}, 'parameters': [{'key': 'a.b.c', 'values': [1, 2]}, {'key': 'd.e.f', 'values': [3], 'enabled': False}], 'with_dask': False})
+ps = list(obs.parameter_mode.parameters) if hasattr(obs, 'parameter_mode') else []
+if [p.key for p in ps] != ['a.b.c', 'd.e.f'] or [list(p.values) for p in ps] != [[1, 2], [3]] or [p.enabled for p in ps] != [True, False] or list(obs.readout.times) != [1.0, 2.0] or obs.readout.non_destructive is not True:
+    VIOLATED, DETAIL = True, f'observation: parameters {[(p.key, list(p.values), p.enabled) for p in ps]} readout {list(obs.readout.times)}'
+ex = C.to_exposure({'readout': {'times': [0.5, 4.0], 'start_time': 0.25}})
+if list(ex.readout.times) != [0.5, 4.0] or ex.readout.start_time != 0.25:
+    VIOLATED, DETAIL = True, f'exposure: readout {list(ex.readout.times)} start {ex.readout.start_time}'
+""", "expect": "geometry / environment / characteristics / readout / parameters are each built from the YAML section of that name, for every detector type and running mode"}
+
+
+@unit("C12", "sections")
+def sections_unit(u: Unit):
+    """to_ccd / to_cmos / to_mkid_array / to_apd and to_exposure / to_observation / to_calibration: each part of the built object comes
+    from the YAML section of the same name, through the builder of the matching type (the builders are units builders.* and the
+    constructors / setters are ctor.* / setter.*); parameter lists keep their order."""
+    from pyvc.values import HDict
+    DQ = "pyxel/detectors/"
+    det_cases = [("to_ccd", f"{DQ}ccd/ccd.py::CCD", "to_ccd_geometry", "to_ccd_characteristics"), ("to_cmos", f"{DQ}cmos/cmos.py::CMOS", "to_cmos_geometry", "to_cmos_characteristics"),
+                 ("to_mkid_array", f"{DQ}mkid/mkid.py::MKID", "to_mkid_geometry", "to_mkid_characteristics"), ("to_apd", f"{DQ}apd/apd.py::APD", "to_apd_geometry", "to_apd_characteristics")]
+    helpers = ["to_ccd_geometry", "to_cmos_geometry", "to_mkid_geometry", "to_apd_geometry", "to_environment", "to_ccd_characteristics", "to_cmos_characteristics",
+               "to_mkid_characteristics", "to_apd_characteristics", "to_readout", "to_parameters", "to_exposure_outputs", "to_observation_outputs", "to_calibration_outputs",
+               "to_algorithm", "to_fitness_function"]
+
+    def mk_cfg():
+        cfg = Cfg("real")
+        for h in helpers:
+            q = f"{CFGQ}::{h}"
+
+            def stub(ex, args, kwargs, fr, h=h):
+                ex.rec.setdefault("built", []).append((h, args[0] if args else None))
+                return VOpaque("part", ex.st.fresh_int("part"), {"by": h, "from": args[0] if args else None})
+            cfg.contracts[q] = Contract(q, stub, f"{h}: builders.passthrough / ctor.*")
+        return cfg
+
+    for name, cls_q, geo_b, cha_b in det_cases:
+        fi = u.fn(f"{CFGQ}::{name}")
+        cfg = mk_cfg()
+        ci = u.cls(cls_q)
+        initq = None
+        for c in u.world.mro(ci) if hasattr(u.world, "mro") else [ci]:
+            if "__init__" in getattr(c, "methods", {}):
+                initq = c.methods["__init__"].qualname
+                break
+
+        def ctor(ex, args, kwargs, fr):
+            ex.rec["ctor"] = dict(kwargs)
+            ex.rec["ctor_args"] = list(args[1:])
+            return NONE
+        if initq:
+            cfg.contracts[initq] = Contract(initq, ctor, "detector constructor (C18 / C02)")
+
+        def setup(ex):
+            ex.rec = {}
+            ex.sec = {k: VOpaque("section", z3.Int(f"section_{k}"), {"name": k}) for k in ("geometry", "environment", "characteristics")}
+            return [ex.st.alloc(HDict([(VStr(k), v) for k, v in ex.sec.items()]))], {}
+        ps = u.paths(fi, setup, cfg, label=name)
+        for p in ps:
+            if p.kind != "return":
+                u.oblige(p, f"sections.no_raise[{name}]", False, {"exc": p.exc_name()}, SECTIONS_REPLAY)
+                continue
+            k = p.ex.rec.get("ctor", {})
+            def from_(part, builder, section):
+                return isinstance(part, VOpaque) and part.kind == "part" and part.info["by"] == builder and part.info["from"] is p.ex.sec[section]
+            ok = (not p.ex.rec.get("ctor_args") and set(k) == {"geometry", "environment", "characteristics"} and from_(k["geometry"], geo_b, "geometry")
+                  and from_(k["environment"], "to_environment", "environment") and from_(k["characteristics"], cha_b, "characteristics"))
+            cls_ok = isinstance(p.value, VRef) and p.ex.cls_name(p.st.cell(p.value).cls) == cls_q.split("::")[-1]
+            u.oblige(p, f"sections.each_part_from_its_own_section[{name}]", bool(ok and cls_ok), {"got": str({a: (v.info.get("by"), getattr(v.info.get("from"), "info", {}).get("name")) if isinstance(v, VOpaque) else str(v) for a, v in k.items()})}, SECTIONS_REPLAY)
+        u.cover(f"sections.cover[{name}]", ps, lambda p: p.kind == "return")
+
+    # running modes
+    mode_cases = [("to_exposure", "pyxel/exposure/exposure.py::Exposure", {"outputs": "to_exposure_outputs"}, []),
+                  ("to_observation", "pyxel/observation/observation.py::Observation", {"outputs": "to_observation_outputs"}, ["parameters"]),
+                  ("to_calibration", "pyxel/calibration/calibration.py::Calibration", {"outputs": "to_calibration_outputs", "fitness_function": "to_fitness_function", "algorithm": "to_algorithm"},
+                   ["parameters", "result_input_arguments"])]
+    for name, cls_q, single, lists in mode_cases:
+        fi = u.fn(f"{CFGQ}::{name}")
+        cfg = mk_cfg()
+        ci = u.cls(cls_q)
+        initq = ci.methods["__init__"].qualname if "__init__" in getattr(ci, "methods", {}) else None
+
+        def ctor2(ex, args, kwargs, fr):
+            ex.rec["ctor"] = dict(kwargs)
+            ex.rec["ctor_args"] = list(args[1:])
+            return NONE
+        if initq:
+            cfg.contracts[initq] = Contract(initq, ctor2, "running-mode constructor")
+
+        def setup2(ex, single=single, lists=lists):
+            ex.rec = {}
+            ex.sec = {k: VOpaque("section", z3.Int(f"section_{k}"), {"name": k}) for k in list(single) + ["readout", "extra_setting"]}
+            ex.lst = {k: [VOpaque("section", z3.Int(f"section_{k}_{i}"), {"name": f"{k}[{i}]"}) for i in range(2)] for k in lists}
+            items = [(VStr(k), v) for k, v in ex.sec.items()] + [(VStr(k), ex.st.alloc(HList(list(v)))) for k, v in ex.lst.items()]
+            return [ex.st.alloc(HDict(items))], {}
+        ps = u.paths(fi, setup2, cfg, label=name)
+        for p in ps:
+            if p.kind != "return":
+                u.oblige(p, f"sections.no_raise[{name}]", False, {"exc": p.exc_name()}, SECTIONS_REPLAY)
+                continue
+            k = p.ex.rec.get("ctor", {})
+            def from_(part, builder, sec):
+                return isinstance(part, VOpaque) and part.kind == "part" and part.info["by"] == builder and part.info["from"] is sec
+            ok = not p.ex.rec.get("ctor_args") and set(k) == set(single) | set(lists) | {"readout", "extra_setting"}
+            ok = ok and from_(k.get("readout"), "to_readout", p.ex.sec["readout"]) and k.get("extra_setting") is p.ex.sec["extra_setting"]
+            ok = ok and all(from_(k.get(s), b, p.ex.sec[s]) for s, b in single.items())
+            for l in lists:
+                got = p.ex.try_list(k.get(l)) if k.get(l) is not None else None
+                ok = ok and got is not None and len(got) == 2 and all(from_(got[i], "to_parameters", p.ex.lst[l][i]) for i in range(2))
+            u.oblige(p, f"sections.each_part_from_its_own_section[{name}]", bool(ok), {"keys": str(sorted(k))}, SECTIONS_REPLAY)
+        u.cover(f"sections.cover[{name}]", ps, lambda p: p.kind == "return")
